@@ -69,6 +69,37 @@ mut("cust-activate-accepts-any-pay-token", CUS, "        match unblinded_pay_tok
 mut("cust-unlock-accepts-any-pay-token", CUS, "        match unblinded_pay_token.verify(config, &self.state) {", "        match { let _ = config; Verified } {", ["c03"], count=2, nth=1)
 mut("cust-lock-accepts-any-closing-signature", CUS, "        match close_state_signature.verify(config, &self.new_state.close_state()) {", "        match { let _ = config; Verified } {", ["c03"])
 
+# ---- decode-time validators weakened / dropped (the bincode-gated negative tests are not in the baseline)
+NON = "zkabacus-crypto/src/nonce.rs"
+REV = "zkabacus-crypto/src/revlock.rs"
+mut("decode-nonce-accepts-close-tag", NON, "        if n != CLOSE_SCALAR {\n            Ok(Self(n))", "        if n != CLOSE_SCALAR || n == CLOSE_SCALAR {\n            Ok(Self(n))", ["c15", "c18"])
+mut("decode-revpair-lock-not-compared", REV, "        if unchecked.lock == valid_pair.lock {\n            Ok(valid_pair)", "        if unchecked.lock == valid_pair.lock || true {\n            Ok(valid_pair)", ["c15", "c05"])
+mut("decode-revpair-keeps-wire-lock", REV, "        if unchecked.lock == valid_pair.lock {\n            Ok(valid_pair)", "        if unchecked.lock == valid_pair.lock {\n            Ok(RevocationPair { lock: unchecked.lock, ..valid_pair })", ["c15", "c05"])
+mut("decode-signature-accepts-identity", PS, "        if bool::from(sigma1.is_identity()) {\n            return Err(", "        if bool::from(sigma1.is_identity()) && bool::from(sigma2.is_identity()) {\n            return Err(", ["c15", "c03"])
+mut("decode-publickey-skips-x2", PS, "            || bool::from(g2.is_identity())\n            || bool::from(x2.is_identity())\n", "            || bool::from(g2.is_identity())\n", ["c15"])
+mut("decode-secretkey-skips-ys", PS, "            if y.is_zero() {\n                return Err(\"The secret key must not contain zero scalars\".to_string());", "            if y.is_zero() && x.is_zero() {\n                return Err(\"The secret key must not contain zero scalars\".to_string());", ["c15"])
+mut("decode-pedersen-skips-h", PED, "        if bool::from(h.is_identity()) {\n            return Err(\"Pedersen parameters must not contain the identity element\".to_string());\n        }\n", "", ["c15"])
+# ---- merchant completion / revocation
+mut("merchant-complete-always-verified", MER, "            Failed => Err(self),\n        }\n    }\n}", "            Failed => Ok(BlindedPayToken::sign(rng, self.config, self.blinded_state)),\n        }\n    }\n}", ["c05"])
+# ---- constants of the range constraint
+mut("range-ten-digits", RNG, "const RP_PARAMETER_L: usize = 9;", "const RP_PARAMETER_L: usize = 10;", ["c13", "c10", "c02"])
+
+# ---- && turned into || / disjunctive weakenings
+mut("pay-and-to-or-new_revlocks", PRO, "                && new_revlocks_match\n", "                || new_revlocks_match\n", ["c02"])
+mut("est-and-to-or-revlocks", PRO, "                && revlocks_match\n", "                || revlocks_match\n", ["c01"])
+mut("range-and-to-or", RNG, "        valid_digits && response_scalar == expected_response_scalar", "        valid_digits || response_scalar == expected_response_scalar", ["c13", "c02"])
+mut("pay-close-tag-checked-on-either-tuple", PRO, "        let close_tag_matches = close_state_response_scalars[1] == close_tag_matches_expected;", "        let close_tag_matches = close_state_response_scalars[1] == close_tag_matches_expected || state_response_scalars[1] == close_tag_matches_expected;", ["c02"])
+mut("ps-verify-wellformed-or-zero-message", PS, "        if !self.is_well_formed() {\n            return false;\n        }\n\n        // x + sum", "        if !self.is_well_formed() && !msg.iter().all(|m| m.is_zero()) {\n            return false;\n        }\n\n        // x + sum", ["c07", "c03"])
+mut("verify-opening-or-identity", PED, "        msg.commit(pedersen_params, bf) == *self\n", "        msg.commit(pedersen_params, bf) == *self || bool::from(self.0.is_identity())\n", ["c09", "c05"])
+
+# ---- customer state machine / message construction
+mut("closing-message-not-rerandomized", CUS, "        close_signature.randomize(&mut *rng);\n", "        let _ = &mut *rng;\n", ["c14", "c03"])
+mut("lock-message-reveals-new-pair", CUS, "                    revocation_pair: self.old_state.revocation_pair(),", "                    revocation_pair: self.new_state.revocation_pair(),", ["c14", "c03", "c04"])
+mut("started-close-uses-new-state-and-old-sig", CUS, "            self.old_close_state_signature,\n            self.old_state.close_state(),", "            self.old_close_state_signature,\n            self.new_state.close_state(),", ["c03", "c04"])
+mut("apply-payment-keeps-nonce", STA, "            nonce: Nonce::new(rng),\n            revocation_pair: RevocationPair::new(rng),\n            customer_balance: self.customer_balance.apply(amt)?,", "            nonce: self.nonce,\n            revocation_pair: RevocationPair::new(rng),\n            customer_balance: self.customer_balance.apply(amt)?,", ["c14", "c04", "c02"])
+mut("apply-payment-keeps-revocation-pair", STA, "            revocation_pair: RevocationPair::new(rng),\n            customer_balance: self.customer_balance.apply(amt)?,", "            revocation_pair: self.revocation_pair,\n            customer_balance: self.customer_balance.apply(amt)?,", ["c14", "c03"])
+mut("close-state-swaps-balances", STA, "            merchant_balance: *merchant_balance,\n            customer_balance: *customer_balance,\n        }\n    }", "            merchant_balance: MerchantBalance::try_new(customer_balance.into_inner()).unwrap(),\n            customer_balance: CustomerBalance::try_new(merchant_balance.into_inner()).unwrap(),\n        }\n    }", ["c04", "c03", "c01"])
+
 
 def sh(cmd, cwd=None, timeout=3600):
     p = subprocess.run(cmd, shell=True, cwd=cwd, stdout=subprocess.PIPE, stderr=subprocess.STDOUT, timeout=timeout, env=ENV)
@@ -132,12 +163,12 @@ def main():
             jobs = int(a[i + 1])
         if x == "--only":
             only = a[i + 1]
-    todo = [m for m in M if not only or only in m["id"]]
     os.makedirs(AM, exist_ok=True)
     outdir = os.path.join(ROOT, "seeded-auto")
     os.makedirs(outdir, exist_ok=True)
     rp = os.path.join(outdir, "results.json")
     results = json.load(open(rp)) if os.path.exists(rp) else {}
+    todo = [m for m in M if (not only or only in m["id"]) and not ("--skip-done" in a and m["id"] in results)]
     slots = list(range(jobs))
     import queue
     q = queue.Queue()
